@@ -1299,11 +1299,11 @@ class _Identifiers:
 
 _FOR_LOOP = re.compile(
     r"^for\s+((?:\(?)\s*"
-    r"(?:\(?)\s*[A-Za-z_][A-Za-z_0-9]*"
-    r"(?:\s*,\s*(?:[A-Za-z_][A-Za-z_0-9]*),??)*\s*(?:\)?)"
+    r"(?:\(?)\s*\*?[A-Za-z_][A-Za-z_0-9]*"
+    r"(?:\s*,\s*(?:\*?[A-Za-z_][A-Za-z_0-9]*),??)*\s*(?:\)?)"
     r"(?:\s*,\s*(?:"
-    r"(?:\(?)\s*[A-Za-z_][A-Za-z_0-9]*"
-    r"(?:\s*,\s*(?:[A-Za-z_][A-Za-z_0-9]*),??)*\s*(?:\)?)"
+    r"(?:\(?)\s*\*?[A-Za-z_][A-Za-z_0-9]*"
+    r"(?:\s*,\s*(?:\*?[A-Za-z_][A-Za-z_0-9]*),??)*\s*(?:\)?)"
     r"),??)*\s*(?:\)?))\s+in\s+(.*?):\s*(?:#.*)?$"
 )
 
@@ -1320,13 +1320,17 @@ def mangle_mako_loop(node, printer):
         match = _FOR_LOOP.match(re.sub(r"\\\r?\n", " ", node.text))
         if match:
             printer.writelines(
-                "loop = __M_loop._enter(%s)" % match.group(2),
+                # in parenthesis: the iterable may be a bare tuple (1, 2)
+                "loop = __M_loop._enter((%s))" % match.group(2),
                 "try:",
                 # 'with __M_loop(%s) as loop:' % match.group(2)
             )
             text = "for %s in loop:" % match.group(1)
         else:
-            raise SyntaxError("Couldn't apply loop context: %s" % node.text)
+            raise exceptions.CompileException(
+                "Couldn't apply loop context: %s" % node.text,
+                **node.exception_kwargs,
+            )
     else:
         text = node.text
     return text
